@@ -156,7 +156,7 @@ def make_history(base, cfg, r, n_commits=None, kind=None):
             op = r.choice(["insert", "update", "delete", "mixed"])
         con.execute("BEGIN")
         ids = [x[0] for x in con.execute("SELECT rowid FROM t0")]
-        if op == "insert" or not ids:
+        if op == "insert" or (not ids and op not in ("freelist_drain", "odd_rowids", "wide_schema")):
             ins(r.randint(1, 30), big=r.random() < 0.3)
         elif op == "update":
             for rid in r.sample(ids, min(len(ids), r.randint(1, 8))) + ([0] if 0 in ids else []):
